@@ -872,6 +872,12 @@ func intrASN1Unmarshal(e *Exec, st *State, fr *Frame, args []Val, in ssa.Instruc
 	if bav == nil || !bav.Scalar {
 		return nil
 	}
+	// a path whose condition is already contradictory (an unrolled loop continued beyond what the lengths allow)
+	// ends here instead of paying for the matching queries below
+	if e.quickValid(st, c.False()) {
+		st.Dead = true
+		return []callRes{}
+	}
 	var keys []string
 	for k := range st.Ghost {
 		if strings.HasPrefix(k, "asn1:") {
